@@ -450,6 +450,9 @@ inductive Op
   | setReadOnly (a : Nat) (b : Bool)
   /-- `system == x` for an `x` that is no unit system -/
   | sysEqOther (a : Nat)
+  /-- `SetDefaultUnitSystemClass(cls)`; `ok` = `cls` implements `IUnitSystem`.  The class of the systems created
+  later is not part of the modelled state: an accepted class is a subclass of `UnitSystem` that behaves like it. -/
+  | setSystemClass (ok : Bool)
 deriving Repr
 
 /-- one public call on the manager or on one of its unit systems -/
@@ -510,6 +513,7 @@ def step (db : Db) (m : Mgr) : Op → Res
     match m.heap[a]? with
     | some _ => Res.answer m (.bool false)
     | none => Res.reject m .other
+  | .setSystemClass ok => if ok then Res.answer m .none else Res.reject m .assertion
 
 /-- the manager after a history -/
 def run (db : Db) (m : Mgr) : List Op → Mgr
